@@ -147,6 +147,7 @@ type harnessReport struct {
 	ReachReplayed int                 `json:"reach_traces_replayed_natively"`
 	Reduced       []string            `json:"reduced,omitempty"`
 	Sample        *interp.PathSample  `json:"sample_path,omitempty"`
+	samples       []interp.PathSample
 }
 
 func main() {
@@ -231,7 +232,7 @@ func main() {
 			Primary:     parseSolver(h.opt(*tier, "solver", "z3-new/bv"), h.optInt(*tier, "timeout_ms", 10000)),
 			TimeBudget:  time.Duration(h.optInt(*tier, "budget_s", 600)) * time.Second,
 			MaxViol:     h.optInt(*tier, "maxviol", 20),
-			KeepSamples: 3,
+			KeepSamples: h.optInt(*tier, "samples", 4),
 			Trace:       *trace,
 			Params:      map[string]int{},
 			LenCap:      h.optInt(*tier, "lencap", 8),
@@ -242,6 +243,15 @@ func main() {
 				continue
 			}
 			cfg.Portfolio = append(cfg.Portfolio, interp.SolverSpec{Name: p[0], IntEnc: p[1] == "int", TimeoutMs: h.optInt(*tier, "portfolio_timeout_ms", 30000)})
+		}
+		if sm := h.opt(*tier, "summaries", ""); sm != "" {
+			cfg.Summaries = map[string]string{}
+			for _, kv := range strings.Split(sm, ",") {
+				p := strings.SplitN(kv, ":", 2)
+				if len(p) == 2 {
+					cfg.Summaries[p[0]] = p[1]
+				}
+			}
 		}
 		for k, v := range h.Opts {
 			if strings.HasPrefix(k, "P.") {
@@ -308,9 +318,10 @@ func main() {
 			jobs = append(jobs, &replayJob{path: filepath.Join(rp.dir, fmt.Sprintf("cex_%d.json", i+1)), viol: v, params: paramsOf(reports, v.Harness)})
 		}
 		for _, r := range reports {
-			if r.Sample != nil {
-				v := &interp.Violation{Harness: r.Name, Kind: "reach", Syms: r.Sample.Syms, Model: r.Sample.Model, Decisions: r.Sample.Decisions}
-				jobs = append(jobs, &replayJob{path: filepath.Join(rp.dir, "reach_"+r.Name+".json"), viol: v, params: r.Params})
+			for k := range r.samples {
+				sm := &r.samples[k]
+				v := &interp.Violation{Harness: r.Name, Kind: "reach", Syms: sm.Syms, Model: sm.Model, Decisions: sm.Decisions}
+				jobs = append(jobs, &replayJob{path: filepath.Join(rp.dir, fmt.Sprintf("reach_%s_%d.json", r.Name, k)), viol: v, params: r.Params, wantObs: sm.Obs})
 			}
 		}
 		if err := rp.run(jobs); err != nil {
@@ -319,6 +330,10 @@ func main() {
 		}
 		for _, j := range jobs {
 			if j.viol.Kind == "reach" {
+				if j.outcome == "ok" && !sameObs(j.wantObs, j.gotObs) {
+					j.outcome = "obs-mismatch"
+					j.detail = fmt.Sprintf("engine=%q native=%q", j.wantObs, j.gotObs)
+				}
 				if j.outcome == "ok" {
 					reachOK++
 					for _, r := range reports {
@@ -417,7 +432,21 @@ func paramsOf(reports []*harnessReport, name string) map[string]int {
 	return nil
 }
 
-func (r *harnessReport) sampleFor(ex *interp.Explorer, cfg *interp.ExploreConfig) {}
+func (r *harnessReport) sampleFor(ex *interp.Explorer, cfg *interp.ExploreConfig) {
+	r.samples = ex.Samples
+}
+
+func sameObs(a, b []string) bool {
+	if len(a) != len(b) {
+		return false
+	}
+	for i := range a {
+		if a[i] != b[i] {
+			return false
+		}
+	}
+	return true
+}
 
 func truncate(s string, n int) string {
 	if len(s) > n {
